@@ -32,12 +32,22 @@ package fix
 //@   method Value() (res interface{}):
 //@     pure
 //@     ensures[C11] imp(istype(self, *Int), istype(res, int))
+//@   method Set(d interface{}) (err error):
+//@     modifies self.*
+//@     ensures[C01,C17] imp(istype(self, *String) && istype(d, string), err == nil && self.(*String).valid && self.(*String).value == unbox_string(d))
 //@   method IsNull() (res bool):
 //@     pure
 //@     ensures[C17,C01] res == nullV(self)
+//@     reveal nullV
 //@   method ToBytes() (res []byte):
 //@     pure
 //@     ensures[C17,C01] res == wireV(self)
+//@     reveal wireV
+
+//@ lemma[C01,C17] wireV_int(v Value): requires istype(v, *Int) ensures wireV(v) == ite(!v.(*Int).valid, nilbytes, bytes(dec(v.(*Int).value))) && nullV(v) == !v.(*Int).valid
+//@   reveal wireV, nullV
+//@ lemma[C01,C17] wireV_string(v Value): requires istype(v, *String) ensures wireV(v) == ite(!v.(*String).valid || v.(*String).value == "", nilbytes, bytes(v.(*String).value)) && nullV(v) == !v.(*String).valid
+//@   reveal wireV, nullV
 
 // ---- items (C17, C01) ---------------------------------------------------------------
 //@ spec wireKV(kv *KeyValue) bytes =
@@ -80,7 +90,7 @@ package fix
 // ---- value types (C17, C02) ---------------------------------------------------------
 //@ spec wireVother(v ref) bytes
 //@ spec nullVother(v ref) bool
-//@ spec wireV(v Value) bytes =
+//@ spec opaque wireV(v Value) bytes =
 //@   ite(istype(v, *String), ite(!v.(*String).valid || v.(*String).value == "", nilbytes, bytes(v.(*String).value)),
 //@   ite(istype(v, *Int), ite(!v.(*Int).valid, nilbytes, bytes(dec(v.(*Int).value))),
 //@   ite(istype(v, *Uint), ite(!v.(*Uint).valid, nilbytes, bytes(dec(v.(*Uint).value))),
@@ -88,7 +98,7 @@ package fix
 //@   ite(istype(v, *Time), ite(!v.(*Time).valid, nilbytes, bytes(tfmt(v.(*Time).value, TimeLayout))),
 //@   ite(istype(v, *Bool), ite(!v.(*Bool).valid, nilbytes, bytes(ite(v.(*Bool).value, "Y", "N"))),
 //@   ite(istype(v, *Raw), v.(*Raw).value, wireVother(v))))))))
-//@ spec nullV(v Value) bool =
+//@ spec opaque nullV(v Value) bool =
 //@   ite(istype(v, *String), !v.(*String).valid,
 //@   ite(istype(v, *Int), !v.(*Int).valid,
 //@   ite(istype(v, *Uint), !v.(*Uint).valid,
@@ -104,6 +114,7 @@ package fix
 // wire image of an item tree: recursive over the heap, unfolded explicitly
 //@ spec wireItemOther(x ref) bytes heap
 //@ spec wireItem(x Item) bytes heap
+//@   reads KeyValue.*, Component.*, Group.*, Value.*, SEQ_Int
 //@   unfold wire_item(x Item): wireItem(x) == ite(istype(x, *KeyValue), wireKV(x.(*KeyValue)), ite(istype(x, *Component), wireComp(x.(*Component)), ite(istype(x, *Group), wireGroup(x.(*Group)), wireItemOther(x))))
 //@ spec wcnt(xs []Item, n int) int heap
 //@ spec wjoin(xs []Item, n int) string heap
@@ -150,6 +161,7 @@ package fix
 
 //@ func (g *Group) ToBytes() (res []byte)
 //@   pure
+//@   reveal wireV, nullV
 //@   requires g != nil
 //@   ensures[C17,C01] @wire imp(gcnt(g.items, len(g.items)) == len(g.items), res == wireGroup(g))
 //@   ensures[C17] @noempty res == wireGroup(g)
@@ -159,3 +171,48 @@ package fix
 //@     invariant[C17,C01] imp(gcnt(g.items, iter) == iter, join(seqof(msg), SOH) == cat(g.noTag, "=", dec(len(g.items)), ite(iter == 0, "", cat(SOH, gjoin(g.items, iter)))))
 //@     decreases len(g.items) - iter
 //@     lemma gitems_zero(g.items); gitems_step(g.items, iter); join_snoc(emptystrs, nths(seqof(msg), 0), SOH); join_empty(emptystrs, SOH)
+
+// ---- message framing (C01) and field order (C17) ----------------------------------
+//@ field Message.bodyLength: owned
+//@ field Message.checkSum: owned
+//@ field KeyValue.Value: inherits
+
+//@ spec optLen(b bytes) int = ite(len(b) > 0, len(b) + 1, 0)
+//@ spec optL(b bytes) string = ite(len(b) > 0, cat(SOH, b), "")
+//@ spec wireCompN(c *Component) bytes = ite(c == nil, nilbytes, wireComp(c))
+//@ spec msgHead(msg *Message) string = cat(wireKV(msg.beginString), SOH, wireKV(msg.bodyLength), SOH, wireKV(msg.msgType))
+//@ spec msgWF(msg *Message) bool = msg != nil && msg.header != nil && msg.beginString != nil && msg.bodyLength != nil && msg.msgType != nil && msg.checkSum != nil
+//@   && msg.bodyLength != msg.beginString && msg.bodyLength != msg.msgType && msg.checkSum != msg.beginString && msg.checkSum != msg.msgType && msg.checkSum != msg.bodyLength
+//@   && msg.checkSum.Value != nil && istype(msg.checkSum.Value, *String) && msg.checkSum.Value != msg.beginString.Value && msg.checkSum.Value != msg.msgType.Value
+
+//@ func (msg *Message) CalcBodyLength() (n int)
+//@   pure
+//@   requires msg != nil && msg.header != nil
+//@   ensures[C01] n == optLen(wireKV(msg.msgType)) + optLen(wireComp(msg.header)) + optLen(wireItemsB(msg.body))
+
+//@ func (msg *Message) BytesWithoutChecksum() (res []byte)
+//@   pure
+//@   requires msg != nil && msg.header != nil
+//@   witness T = from(string(res), len(msgHead(msg)))
+//@   ensures[C01] @decomp !isnil(res) && string(res) == cat(msgHead(msg), T)
+//@   ensures[C01] @taillen len(T) == optLen(wireComp(msg.header)) + optLen(wireItemsB(msg.body))
+//@   ensures[C01] @tailsep T == "" || code(T, 0) == 1
+//@   ensures[C17] @order string(res) == cat(msgHead(msg), optL(wireComp(msg.header)), optL(wireItemsB(msg.body)))
+//@   ensures[C17] @trailer string(res) == cat(msgHead(msg), optL(wireComp(msg.header)), optL(wireItemsB(msg.body)), optL(wireCompN(msg.trailer)))
+
+//@ func (msg *Message) Prepare() (err error)
+//@   requires msgWF(msg)
+//@   requires[C01] len(wireKV(msg.msgType)) > 0 && len(wireKV(msg.beginString)) > 0
+//@   modifies msg.prepared, msg.bodyLength.Value, msg.checkSum.Value.*
+//@   call BytesWithoutChecksum#1:
+//@     witness headAtCall = msgHead(msg)
+//@   call Set#1:
+//@     assert[C01] @head msgHead(msg) == headAtCall
+//@   witness T = from(string(byteMsg), len(msgHead(msg)))
+//@   witness c = msg.checkSum.Value.(*String).value
+//@   ensures[C01] @noerr err == nil
+//@   ensures[C01] @layout string(msg.prepared) == cat(msgHead(msg), T, SOH, msg.checkSum.Key, "=", c, SOH)
+//@   ensures[C01] @bodylen wireKV(msg.bodyLength) == bytes(cat(msg.bodyLength.Key, "=", dec(len(cat(wireKV(msg.msgType), T, SOH)))))
+//@   ensures[C01] @checksum c == digits3(bsum(cat(msgHead(msg), T, SOH)) % 256)
+//@   ensures[C01] @tail len(T) == optLen(wireComp(msg.header)) + optLen(wireItemsB(msg.body)) && (T == "" || code(T, 0) == 1)
+//@   lemma bsum_cat(cat(msgHead(msg), T), SOH); bsum_snoc(SOH, 0); bsum_empty(); wireV_int(msg.bodyLength.Value); wireV_string(msg.checkSum.Value)
